@@ -310,6 +310,26 @@ def impl_result(call):
         return proto.classify_exc(e)
 
 
+RECYCLE_EVERY = int(os.environ.get('VERIF_RECYCLE_EVERY', '8'))      # every 8th correspondence case runs the real code on recycled argument objects (harness/recycle.py)
+
+
+def impl_result_at(call, index):
+    """the implementation's result for correspondence case number `index`: every RECYCLE_EVERY-th case (when the plain call
+    is fast) is computed through argument objects that an earlier call on a variant already received, updated in place"""
+    if index % RECYCLE_EVERY != 3:
+        return impl_result(call)
+    t0 = time.time()
+    iv = impl_result(call)
+    if time.time() - t0 > 0.05:
+        return iv
+    import recycle
+
+    def recycled():
+        with recycle.recycling(recycle.mode_for(index // RECYCLE_EVERY)):
+            return call()
+    return impl_result(recycled)
+
+
 def _suite_job(job):
     pid, modname, suite, tier, seed, shard, nshards = job
     try:
@@ -327,7 +347,7 @@ def _suite_job(job):
             assert cid == str(i), "driver answered out of order"
             if c.post is not None and not isinstance(mv, proto.Err):
                 mv = c.post(mv)
-            iv = impl_result(c.call)
+            iv = impl_result_at(c.call, i)
             h = hashlib.blake2b(lines[i].split(" ", 1)[1].encode(), digest_size=8).digest()
             distinct.add(h)
             if c.nontrivial:
@@ -341,7 +361,7 @@ def _suite_job(job):
                     disagreements.append({"suite": suite, "locator": {"suite": suite, "tier": tier, "seed": seed,
                                                                       "shard": shard, "nshards": nshards, "index": i},
                                           "op": c.op, "args": proto.jsonable(c.args),
-                                          "info": proto.jsonable(c.info), "diff": d,
+                                          "info": proto.jsonable(c.info), "diff": d, "recycled_objects": i % RECYCLE_EVERY == 3,
                                           "model": proto.jsonable(mv), "impl": proto.jsonable(iv)})
                 else:
                     disagreements.append(None)
@@ -413,11 +433,12 @@ def replay_case(mod, loc):
             _, mv = proto.dec_line(out[0])
             if c.post is not None and not isinstance(mv, proto.Err):
                 mv = c.post(mv)
-            iv = impl_result(c.call)
+            iv = impl_result_at(c.call, i)
             d = proto.match(mv, iv, c.tol)
             if d is None:
                 return None
-            return "%s %s: model (the executable definition) and code disagree: %s" % (loc["suite"], c.op, d)
+            return "%s %s: model (the executable definition) and code disagree%s: %s" % (
+                loc["suite"], c.op, " (code called on recycled argument objects)" if i % RECYCLE_EVERY == 3 else "", d)
     return "case not regenerated (generator changed?)"
 
 
